@@ -25,7 +25,7 @@ import sandboxequiv_ref as ref                                # noqa: E402  (des
 
 PY = "/venv/bin/python"
 REF_SCRIPT = os.path.join(VERIF, "harness", "sandboxequiv_ref.py")
-SCRATCH = os.environ.get("VERIF_C06_SCRATCH", "/tmp/c16_c06_ref")
+SCRATCH = os.environ.get("VERIF_C06_SCRATCH", "/tmp/verif_c06_ref")
 
 
 # --------------------------------------------------------------------------
